@@ -1,5 +1,6 @@
 mod c01;
 mod c06;
+mod c07;
 mod syn;
 mod c10;
 mod c12;
@@ -79,6 +80,7 @@ fn main() {
       "C14" => c14::replay(&j["case"], j["kind"].as_str().unwrap_or("")),
       "C06" => c06::replay(&j["case"]),
       "C20" => c20::replay(&j["case"]),
+      "C07" => c07::replay(&j["case"]),
       "C15" => c15::replay(&j["case"]),
       "C12" => c12::replay(&j["case"], j["kind"].as_str().unwrap_or("")),
       "C10" => c10::replay(&j["case"], j["kind"].as_str().unwrap_or("")),
@@ -108,6 +110,7 @@ fn main() {
     "C10" => c10::run(tier),
     "C06" => c06::run(tier),
     "C20" => c20::run(tier),
+    "C07" => c07::run(tier),
     "C15" => c15::run(tier),
     "C12" => c12::run(tier),
     "C14" => c14::run(tier),
